@@ -49,6 +49,9 @@ pub struct RefRun<'p> {
   /// (a cyclic require is skipped), to find every kind of violation the tasks contain in this state.
   pub collect: bool,
   pub collected: Vec<RefViol>,
+  /// Collect mode only: every task that wrote each resource in this build (there can be several once overlaps are
+  /// recorded instead of stopping the build).
+  pub writers_all: Vec<Vec<u32>>,
   /// Some task read a resource before another task wrote it in this build (legal when the reader requires the writer,
   /// but then results depend on evaluation order: outside the class for which incremental = from-scratch is claimed).
   pub order_sensitive: bool,
@@ -72,6 +75,7 @@ impl<'p> RefRun<'p> {
       lenient: false,
       collect: false,
       collected: Vec::new(),
+      writers_all: vec![Vec::new(); p.n_res],
       order_sensitive: false,
     }
   }
@@ -135,6 +139,12 @@ impl Env for RefRun<'_> {
         else { self.viol = Some(RefViol::HiddenRead { res, reader: cur, writer: w }); return 0; }
       }
     }
+    if self.collect && !self.lenient {
+      for i in 0..self.writers_all[res as usize].len() {
+        let w = self.writers_all[res as usize][i];
+        if w != cur && Some(w) != self.writer_of[res as usize] && !self.reaches(cur, w) { self.collected.push(RefViol::HiddenRead { res, reader: cur, writer: w }); }
+      }
+    }
     if fail_stamp { return OBS_ERR; }
     if !self.readers_of[res as usize].contains(&cur) { self.readers_of[res as usize].push(cur); }
     kind.abs(self.state[res as usize])
@@ -163,7 +173,10 @@ impl Env for RefRun<'_> {
       Fail::ResWrite | Fail::WriteFn => {}
       Fail::None | Fail::Stamp => { self.state[res as usize] = val; }
     }
-    if fail == Fail::None { self.writer_of[res as usize] = Some(cur); }
+    if fail == Fail::None {
+      self.writer_of[res as usize] = Some(cur);
+      if self.collect && !self.writers_all[res as usize].contains(&cur) { self.writers_all[res as usize].push(cur); }
+    }
   }
 
   fn user_panic(&mut self) {
